@@ -165,6 +165,13 @@ class Typemap(object):
         ntypemap.update(self._to_dict())
         return ntypemap
 
+    def __deepcopy__(self, memo):
+        """Typemaps are shared.
+        A copy of a declaration refers to the same typemap, so that
+        fields added later (by the wrappers) are seen by the copy.
+        """
+        return self
+
     def clone_as(self, name):
         """
         Args:
